@@ -58,6 +58,13 @@ Theorem c14_path_injective : forall l1 l2,
   plain_keys l1 = true -> plain_keys l2 = true -> path_json l1 = path_json l2 -> to_owned l1 = to_owned l2.
 Proof. exact path_json_injective. Qed.
 
+(** ... and so can the query-parameter rendering (the same text without the leading dot of a first
+    key), when moreover a first key is not empty *)
+Theorem c14_path_qp_roundtrip : forall l, qp_ok l = true -> parse_path_qp (path_qp l) = Some (to_owned l).
+Proof. exact path_qp_roundtrip. Qed.
+
+Check c14_path_qp_roundtrip : forall l, qp_ok l = true -> parse_path_qp (path_qp l) = Some (to_owned l).
+
 Example c14_path_example :
   parse_path (path_json (Index 12 (Key "b c" (Index 0 (Key "a" Origin)))))
   = Some [SKey "a"; SIndex 0; SKey "b c"; SIndex 12].
@@ -77,3 +84,4 @@ Print Assumptions c14_ok_same.
 Print Assumptions c14_path_roundtrip.
 Print Assumptions c14_path_injective.
 Print Assumptions c14_rendered_report_is_true.
+Print Assumptions c14_path_qp_roundtrip.
